@@ -143,6 +143,12 @@ PROGRAMS = {
         ["add", "mw", ["cp", 8, S("a0", lo=0), S("d0"), 0.4]],
         ["delay", "mw2", 2], ["add", "mw2", ["cp", 3, S("a1", lo=0), S("d1"), 1.4], "no-delay"],
         ["add", "mw2", ["cp", 6, S("a2", lo=0), S("d2"), 0.9], "no-delay"]]),
+    # two Global channels on the ground-rydberg basis (reusable device), the first one the longest
+    "two_glob_ising": dict(device="mock", prog=[
+        ["declare", "g1", "rydberg_global"], ["declare", "g2", "rydberg_global"],
+        ["add", "g1", ["cp", 9, S("a0", lo=0), S("d0"), 0.0]],
+        ["add", "g2", ["cp", 4, S("a1", lo=0), S("d1"), 0.0], "no-delay"],
+        ["delay", "g2", 2], ["add", "g2", ["cp", 3, S("a2", lo=0), S("d2"), 0.0], "no-delay"]]),
     # shaped (non-constant) amplitude waveforms whose samples may all be zero, constant detuning, a phase of their own: still pulses
     "zero_amp_shaped": dict(device="mock", prog=[
         ["declare", "g", "rydberg_global"],
@@ -379,10 +385,48 @@ def h_program(shape):
                     if addr == "Local":
                         same.append(set(n1[addr][basis]) == set(n2[addr][basis]) and set(n1[addr][basis]) <= set(qids))
             obs.append(("nested:repeatable_same_atoms", all(same)))
+            # ... with the same VALUES: `samples` was already viewed above (views hand out nothing that later views depend on),
+            # `again` is a fresh rendering
+            obs.append(("nested:repeatable_same_values", nd_equal(n1, n2)))
+            # extending AFTER the view was taken: the per-atom view of the extended samples is the view of a fresh extended rendering
+            try:
+                e1 = samples.extend_duration(Tseq + 5).to_nested_dict(all_local=all_local)
+                e2 = pulser.sampler.sample(seq, extended_duration=Tseq + 5).to_nested_dict(all_local=all_local)
+                obs.append(("extended:view_after_view", nd_equal(e1, e2, length=Tseq + 5)))
+            except Exception:  # noqa: BLE001
+                obs.append(("extended:completes", False))
         obs.append(("sampling:leaves_sequence_untouched", l2.snap_equal(before, l2.snapshot(seq))))
         return obs
 
     return h
+
+
+def nd_equal(n1, n2, length=None):
+    """Two nested dictionaries hold the same arrays (element-wise, proxies included)."""
+    terms = []
+
+    def arrays(d):
+        out = {}
+        for addr in ("Global", "Local"):
+            for basis, v in d[addr].items():
+                if addr == "Global":
+                    for q_, arr in v.items():
+                        out[(addr, basis, None, q_)] = arr
+                else:
+                    for atom, qd in v.items():
+                        for q_, arr in qd.items():
+                            out[(addr, basis, atom, q_)] = arr
+        return out
+
+    a1, a2 = arrays(n1), arrays(n2)
+    if set(a1) != set(a2):
+        return False
+    for k in a1:
+        x, y = list(np.asarray(a1[k]).flat), list(np.asarray(a2[k]).flat)
+        if len(x) != len(y) or (length is not None and len(x) != length):
+            return False
+        terms += [EQ(u, v) for u, v in zip(x, y)]
+    return AND(*terms) if terms else True
 
 
 def stretch(prog, add):
